@@ -181,6 +181,14 @@ Section Pipe.
   Qed.
   Lemma in_isort e l : In e (isort l) -> In e l.
   Proof. induction l as [|x l IH]; cbn; [tauto|]. intros H. destruct (in_insert _ _ _ H); auto. Qed.
+  Lemma in_insert_back e x l : e = x \/ In e l -> In e (insert x l).
+  Proof.
+    induction l as [|y l IH]; cbn; [intros [->|[]]; auto|]. destruct (dle (snd x) (snd y)); cbn.
+    - intros [->|[->|H]]; auto.
+    - intros [->|[->|H]]; auto.
+  Qed.
+  Lemma in_isort_back e l : In e l -> In e (isort l).
+  Proof. induction l as [|x l IH]; cbn; [tauto|]. intros [->|H]; apply in_insert_back; auto. Qed.
   Lemma knn_labels (cands : list (nat * src)) t e : In e (knn cands t) -> In (fst e) (map fst cands).
   Proof.
     unfold Organise.knn. intros H. apply in_firstn, in_isort, filter_In in H as [H _].
